@@ -45,7 +45,9 @@ Report(i) == \E a \in Allowed(i), uc \in UsedClass, lc \in LevelClass :
                /\ hist' = Append(hist, [k |-> "report", inst |-> i, uc |-> uc, lc |-> lc, max |-> 0])
 ChangeLimit == \E n \in 1..MaxLimit : n # limit /\ limit' = n /\ UNCHANGED q
                /\ hist' = Append(hist, [k |-> "limit", inst |-> 0, uc |-> "", lc |-> "", max |-> n])
-Next == (\E i \in Insts : Report(i)) \/ ChangeLimit
+\* token bucket: the global BURST changes while the rate limit stays (the recorded quotas are untouched; later answers scale with the new burst)
+ChangeBurst == \E f \in 1..3 : UNCHANGED <<limit, q>> /\ hist' = Append(hist, [k |-> "burst", inst |-> 0, uc |-> "", lc |-> "", max |-> f])
+Next == (\E i \in Insts : Report(i)) \/ ChangeLimit \/ ChangeBurst
 Spec == Init /\ [][Next]_vars
 View == <<limit, q>>
 
